@@ -9,12 +9,12 @@
   * `LocalOK`: the decidable per-image discipline; `RecoverOK`: the property's statement about one reopened image.
   * trie store: `MTree`, `commitPuts` (trie/database.go `commit`), `Closed`; `commitRun` (batching and the lock/unlock sequence of
     `Database.Commit` under every injected write failure).
-  * writers (`Aqv.ChainDb.Writer`, second half): the event log of `WriteBlockWithState` / `reorg` / `insert` / `Stop` /
+  * writers (`Aqv.Model.ChainWriter`): the event log of `WriteBlockWithState` / `reorg` / `insert` / `Stop` /
     `SetHead`, as written and with the proposed fix.
 
   Keys are abstract: a block / transaction / trie node is named by a natural number standing for its hash.  Content
-  addressing (a hash determines the content) is expressed by a `World` that maps names to contents; the writers only ever
-  store `World` contents, readers never assume it.
+  addressing (a hash determines the content) enters the theorems about the writers as the hypothesis that a block is new
+  or already stored with exactly the same content (`FreshOrSame`); the readers never assume it.
 -/
 namespace Aqv.ChainDb
 
